@@ -805,8 +805,8 @@ namespace sbml {
 #line 94 "sbml_parser.yy"
                    {
             set_boolean s;
-            s.insert(rcp_static_cast<const Boolean>(yystack_[2].value.as < SymEngine::RCP<const SymEngine::Basic> > ()));
-            s.insert(rcp_static_cast<const Boolean>(yystack_[0].value.as < SymEngine::RCP<const SymEngine::Basic> > ()));
+            s.insert(SymEngine::boolean_operand(yystack_[2].value.as < SymEngine::RCP<const SymEngine::Basic> > ()));
+            s.insert(SymEngine::boolean_operand(yystack_[0].value.as < SymEngine::RCP<const SymEngine::Basic> > ()));
             yylhs.value.as < SymEngine::RCP<const SymEngine::Basic> > () = logical_or(s); }
 #line 812 "sbml_parser.tab.cc"
     break;
@@ -815,8 +815,8 @@ namespace sbml {
 #line 99 "sbml_parser.yy"
                     {
             set_boolean s;
-            s.insert(rcp_static_cast<const Boolean>(yystack_[2].value.as < SymEngine::RCP<const SymEngine::Basic> > ()));
-            s.insert(rcp_static_cast<const Boolean>(yystack_[0].value.as < SymEngine::RCP<const SymEngine::Basic> > ()));
+            s.insert(SymEngine::boolean_operand(yystack_[2].value.as < SymEngine::RCP<const SymEngine::Basic> > ()));
+            s.insert(SymEngine::boolean_operand(yystack_[0].value.as < SymEngine::RCP<const SymEngine::Basic> > ()));
             yylhs.value.as < SymEngine::RCP<const SymEngine::Basic> > () = logical_and(s); }
 #line 822 "sbml_parser.tab.cc"
     break;
@@ -842,7 +842,7 @@ namespace sbml {
   case 20: // expr: '!' expr
 #line 107 "sbml_parser.yy"
                {
-            yylhs.value.as < SymEngine::RCP<const SymEngine::Basic> > () = logical_not(rcp_static_cast<const Boolean>(yystack_[0].value.as < SymEngine::RCP<const SymEngine::Basic> > ())); }
+            yylhs.value.as < SymEngine::RCP<const SymEngine::Basic> > () = logical_not(SymEngine::boolean_operand(yystack_[0].value.as < SymEngine::RCP<const SymEngine::Basic> > ())); }
 #line 847 "sbml_parser.tab.cc"
     break;
 
